@@ -185,6 +185,9 @@ def check(sim, case, st):
         missing = lines_p - lines_w
         if missing:
             bad('list-lost-wellformed-lines', 'with malformed neighbours trash-list no longer prints %r' % sorted(missing.elements())[:4])
+        again = [k for k in (lines_w - lines_p) if k in lines_p]
+        if again:
+            bad('list-prints-wellformed-line-again', 'with malformed neighbours trash-list prints %r more often than without them' % sorted(again)[:4])
     elif cmd == 'trash-restore':
         ip = OR.parse_restore_items(pr.outs) or []
         iw = OR.parse_restore_items(wr.outs) or []
@@ -192,6 +195,9 @@ def check(sim, case, st):
         offered_w = collections.Counter((d, p) for _i, d, p in iw)
         if offered_p - offered_w:
             bad('restore-no-longer-offers', 'with malformed neighbours trash-restore no longer offers %r' % sorted((offered_p - offered_w).elements())[:4])
+        twice = [k for k in (offered_w - offered_p) if k in offered_p]
+        if twice:
+            bad('restore-offers-wellformed-entry-again', 'with malformed neighbours trash-restore offers %r more often than without them' % sorted(twice)[:4])
         elif target is not None:
             restored_p = Wd.same_tree(Wd.subtree(p1, target), _payload(p0, well, target))
             restored_w = Wd.same_tree(Wd.subtree(w1, target), _payload(w0, well, target))
